@@ -70,6 +70,15 @@ def shards(tier, seed):
             # one complete stratum of the next length
             out.append(dict(func=func, dtype=dtype, engine=egroup, n=b["n_stratum"], part=b["stratum"],
                             nparts=b["strata"], full=False, tier=tier))
+    # deep two-label leg: many small blocks, so that cohorts span >= 4 blocks (merging, block subsetting, deeper trees)
+    deep_ns = (5, 6, 7) if tier == "quick" else (5, 6, 7, 8)
+    for func, dtype in (("sum", "float64"), ("nanmax", "float64"), ("nanargmax", "float64")):
+        for n in deep_ns:
+            if tier == "quick" and func != "sum" and n == 7:
+                continue
+            nparts = {5: 2, 6: 6, 7: 16, 8: 48}[n]
+            for part in range(nparts):
+                out.append(dict(func=func, dtype=dtype, engine="numpy", n=n, part=part, nparts=nparts, deep=True, tier=tier))
     out.sort(key=lambda s: (0 if s["engine"] == "numbagg" else 1, -s["n"]))
     return out
 
@@ -240,9 +249,29 @@ def check_point(res, func, dtype, engine, lab_tuple, chunks, bblocks, labels_das
                 size=n * 10 + len(chunks))
 
 
+def run_deep(res, shard):
+    """labels {0,1}^n x every chunking of n x methods {cohorts, None, map-reduce}; a few value rows (not the full alphabet)."""
+    func, dtype, n = shard["func"], shard["dtype"], shard["n"]
+    base = np.array([1.0, -2.0, 3.5, 0.0, -2.0, 7.0, float("nan"), 1.0])[:n]
+    V = np.array([np.roll(base, r) for r in range(3)] + [2.0 ** np.arange(n)], dtype=dtype)
+    pairs = [(lt, ch) for lt in itertools.product((0.0, 1.0), repeat=n) for ch in space.compositions(n)]
+    pairs = [p for i, p in enumerate(pairs) if i % shard["nparts"] == shard["part"]]
+    for lab_tuple, chunks in pairs:
+        if len(chunks) < 4:
+            continue  # covered by the complete legs
+        for method in ("cohorts", None, "map-reduce"):
+            check_point(res, func, dtype, "numpy", lab_tuple, chunks, 1, False, method, None, "absent", V)
+        res.nontrivial += 3 * V.shape[0]
+        res.classes[">=4-blocks"] += 1
+    res.sample(dict(leg="deep", func=func, n=n, labels=list(pairs[len(pairs) // 2][0]), chunks=list(pairs[len(pairs) // 2][1]), rows=V.shape[0]))
+    return res
+
+
 def run_shard(shard):
     e1.reset_flox_caches()
     res = Result()
+    if shard.get("deep"):
+        return run_deep(res, shard)
     func, dtype, engine, n = shard["func"], shard["dtype"], shard["engine"], shard["n"]
     V = space.value_matrix(space.alphabet_for(dtype), n, dtype)
     pairs = [(lt, ch) for lt in itertools.product(LABELS, repeat=n) for ch in space.compositions(n)]
@@ -278,6 +307,8 @@ def replay(payload):
     lab = tuple(unjson_float(c["labels"]))
     n = len(lab)
     V = space.value_matrix(space.alphabet_for(c["dtype"]), n, c["dtype"])
+    if n >= 5 and "values" in c:
+        V = np.array([unjson_float(c["values"])], dtype=c["dtype"])
     check_point(res, c["func"], c["dtype"], c["engine"], lab, tuple(c["chunks"]), c["batch_blocks"], c["labels_dask"],
                 c["method"], c["reindex"], c["expected"], V)
     return res
